@@ -420,12 +420,21 @@ func TestC03_P_RequestsFromOneLoadedRoot(t *testing.T) {
 		}
 		nreq := rapid.IntRange(2, 5).Draw(t, "requests")
 		crossing, label := 0, ""
+		// a server may also keep ONE traversal.Config per link system and only set its Ctx for each request
+		keptCfg := rapid.Bool().Draw(t, "oneConfigKeptAcrossRequests")
+		cfgs := []*traversal.Config{
+			{LinkSystem: *lss[0], LinkTargetNodePrototypeChooser: protoChooser},
+			{LinkSystem: *lss[1], LinkTargetNodePrototypeChooser: protoChooser},
+		}
 		for r := 0; r < nreq; r++ {
 			segs, nodes := genWalk(t, root)
+			if r == 0 && rapid.Bool().Draw(t, "firstRequestIsForTheRoot") {
+				segs, nodes = nil, nodes[:1]
+			}
 			target := nodes[len(nodes)-1]
 			which := rapid.SampledFrom(c03Targets).Draw(t, "target")
 			exists := true
-			if rapid.IntRange(0, 4).Draw(t, "bogus") == 0 {
+			if rapid.IntRange(0, 4).Draw(t, "bogus") == 0 && !(r == 0 && len(segs) == 0) {
 				segs = append(append([]string{}, segs...), "no-such-entry")
 				exists = false
 			}
@@ -443,6 +452,10 @@ func TestC03_P_RequestsFromOneLoadedRoot(t *testing.T) {
 			var derr error
 			must(t, "path traversal", func() {
 				prog := traversal.Progress{Cfg: &traversal.Config{Ctx: ctx, LinkSystem: *lss[si], LinkTargetNodePrototypeChooser: protoChooser}}
+				if keptCfg {
+					cfgs[si].Ctx = ctx
+					prog = traversal.Progress{Cfg: cfgs[si]}
+				}
 				err = prog.WalkMatching(pn, sel, func(p traversal.Progress, n datamodel.Node) error {
 					if which == "entity" {
 						if err := unixfsnode.BytesConsumingMatcher(p, n); err != nil {
